@@ -776,7 +776,8 @@ def do_cdf(e, out):
                 viol(i, 'value', 'Cdf = %r, LogCdf = %r (reference F = %s)' % (c, l, mp.nstr(F[i], 10)))
                 continue
             if tolF[i] is None:
-                if not (0 <= c <= 1) or l > 0:
+                slack = float(K_CDF * EPS)
+                if not (-slack <= c <= 1 + slack) or l > slack:
                     viol(i, 'value', 'Cdf = %r, LogCdf = %r is not a probability' % (c, l))
                 continue
             if abs(mpf(c) - F[i]) > tolF[i]:
@@ -849,8 +850,6 @@ def wrap_ref(e, x):
             if x + c == 0 and x == 0:
                 return dict(cls='boundary:lower', mode='either', lp=NINF, tol=None)
             return dict(cls='outside:below', mode='neginf', lp=NINF, tol=None)
-        if x < 0:
-            return dict(cls='interior:-c<x<0', mode='skip', lp=None, tol=None)
         y = mp.log(x + c)
         r = ref_point(f, P, y)
         if r['mode'] == 'neginf':
@@ -864,7 +863,8 @@ def wrap_ref(e, x):
         # rounding of x+c, of log(.) and of the final subtraction
         slope = (dy / abs(y) if y != 0 else mpf(0)) + 1
         tol = r['tol'] + K_LP * EPS * (abs(y) + abs(lp) + slope * (2 + abs(y)))
-        cls = 'interior' if x > 0 else 'interior:x=0'
+        # X = exp(Y) - c lives on (-c, inf); the unchanged tree truncates at x < 0
+        cls = 'interior' if x >= 0 else 'interior:-c<x<0'
         return dict(cls=cls, mode='formula', lp=lp, tol=tol)
     if kind == 'mixture':
         w = [M(s) for s in e['weights']]
@@ -944,13 +944,7 @@ def do_wrap(e, out):
         type_check(out, e, head, ref['cls'], ref, res['Float64'], res['Real64'], wit)
     if 'qx' in e:
         expected = mpf(1)
-        if kind == 'logtransform':
-            f, P = base_of(e['base'])
-            c = M(e['c'])
-            # the composition rule on x >= 0 integrates to 1 - F_base(log c)
-            iref = 1 - (f.cdf(P, mp.log(c)) if c > 0 else 0)
-        else:
-            iref = mpf(1)
+        iref = mpf(1)
 
         def reffn(x):
             r = wrap_ref_density(e, x)
@@ -984,7 +978,7 @@ def wrap_ref_density(e, x):
     if kind == 'logtransform':
         f, P = base_of(e['base'])
         c = M(e['c'])
-        if x <= 0 or x + c <= 0:
+        if x + c <= 0 or (x == 0 and c == 0):
             return None
         y = mp.log(x + c)
         if classify(f, P, y) != 'interior':
